@@ -42,3 +42,14 @@ Example store_nonvacuous :
   sf_dom TIntFamily (VNum (2 ^ 63 - 1) 0) = true /\ vdom TIntFamily (VNum (2 ^ 63 - 1) 0) = true /\
   sf_dom TTsNtz (VTs (-62135596800000000)) = true /\ duck_dom (map_type TTsNtz) (VTs (-62135596800000000)) = true.
 Proof. vm_compute. repeat split. Qed.
+
+(* rows written are returned exactly once (over the DML model of C04) *)
+From FS Require Import Dml DmlProofs.
+Lemma written_rows_once_l : forall d t c rows,
+  let d' := fst (engine d (InsertValues t c rows)) in
+  tget d' t = tget d t ++ map (place c) rows /\ length (tget d' t) = (length (tget d t) + length rows)%nat.
+Proof. intros d t c rows. destruct (insert_exact_l d t c rows) as (H1 & H2 & H3). cbv zeta in *. rewrite H2 in H3. split; assumption. Qed.
+Lemma copied_rows_once_l : forall d t c src p,
+  let d' := fst (engine d (InsertSelect t c src p)) in
+  tget d' t = tget d t ++ map (place c) (filter (holds p) (tget d src)).
+Proof. intros d t c src p. exact (proj1 (insert_select_exact_l d t c src p)). Qed.
